@@ -59,6 +59,9 @@ func (c *Ctx) Require(rule, construct, site, want string, ok bool, detail string
 	if !ok {
 		st = "VIOLATED"
 	}
+	if len(detail) > 900 {
+		detail = detail[:900] + " …(truncated)"
+	}
 	c.Obs = append(c.Obs, &Obligation{Rule: rule, Construct: construct, Site: site, Want: want, Status: st, Detail: detail})
 	return ok
 }
